@@ -1050,7 +1050,7 @@ theorem getVariantsPair_shape (ref q : List Nat) (regions : List Region) (inter 
   intro v hv
   unfold getVariantsPair at hv
   simp only [] at hv
-  have hv' := (Gofasta.Lemmas.mem_dedupAdj_imp _ none v hv).1
+  have hv' := ((Gofasta.Lemmas.mem_dedupRun _ v).1 hv).1
   rw [Gofasta.Lemmas.mem_sortStable] at hv'
   simp only [List.mem_append, List.mem_flatMap] at hv'
   rcases hv' with (h | h) | ⟨reg, hreg, h⟩
